@@ -2,6 +2,7 @@ import Starcal.Drv.Cal
 import Starcal.Drv.Misc
 import Starcal.Drv.Ival
 import Starcal.Drv.Tod
+import Starcal.Drv.ByNameDrv
 /-! Line-protocol driver: runs the executable definitions of the model (the very
     definitions the theorems are about) on requests read from stdin, one response
     line per request. See DESIGN.md section 10b. -/
@@ -13,6 +14,7 @@ def dispatch (toks : List String) : String :=
   | "misc" :: rest => miscRequest rest
   | "ival" :: rest => ivalRequest rest
   | "tod" :: rest => todRequest rest
+  | "byname" :: rest => byNameRequest rest
   | _ => "bad-request"
 
 partial def loop (inp : IO.FS.Stream) (out : IO.FS.Stream) : IO Unit := do
